@@ -128,20 +128,37 @@ def report(ctx, o, why, seed, n):
 
 
 # ---------------------------------------------------------------- end to end: the real binary in a network namespace
-E2E = [(400, 0.5), (250, 0.4), (600, 0.6), (300, 0.5)]     # (exit delay ms, reply after this fraction of it)
+# (exit delay D ms, the reply is sent L ms after the request was seen).  The first four answer in the middle of the delay;
+# the LATE ones answer 110..150 ms before the delay runs out: the receive path (AF_PACKET ring: the kernel hands a block
+# of frames over when it is full or when the block timeout expires, gopacket default 64 ms) must surface the reply in
+# time.  D values have different residues so that a longer hand-over period T is exposed for most T (a reply is lost when
+# no multiple of T after the socket was opened falls between its arrival and the cancellation).
+E2E = [(400, 200), (250, 100), (600, 360), (300, 150)]
+LATE = [(400, 250), (400, 290), (450, 340), (700, 550), (350, 240), (600, 490)]
+ALL_E2E = E2E + LATE
+_sx_lock = __import__("threading").Lock()
 
 
-def e2e_runs(ctx, idxs):
-    """`sx arp --exit-delay D 10.78.0.0/30` in a private netns; a responder on the veth peer answers the request for
-    10.78.0.2 only f*D after it saw it.  Observed: the reply is printed; the process exits no earlier than D after
-    the last probe was seen on the wire."""
-    rows = []
+def build_sx(ctx):
     exe = os.path.join(ctx.work, "sx")
-    rc, out = verif.sh(["go", "build", "-o", exe, "."], env=verif.GOENV, cwd=verif.REPO, timeout=900)
-    if rc != 0:
-        ctx.broken.append(("correspondence: the sx binary does not build from the current tree", out[-1500:]))
+    with _sx_lock:
+        if not os.path.exists(exe):
+            rc, out = verif.sh(["go", "build", "-o", exe, "."], env=verif.GOENV, cwd=verif.REPO, timeout=900)
+            if rc != 0:
+                ctx.broken.append(("correspondence: the sx binary does not build from the current tree", out[-1500:]))
+                return None
+    return exe
+
+
+def e2e_runs(ctx, idxs, tag=""):
+    """`sx arp --exit-delay D 10.78.0.0/30` in a private netns; a responder on the veth peer answers the request for
+    10.78.0.2 only L ms after it saw it.  Observed: the reply is printed; the process exits no earlier than D after
+    the last probe was seen on the wire.  Calls with different tags may run in parallel (one namespace each)."""
+    rows = []
+    exe = build_sx(ctx)
+    if not exe:
         return rows
-    ns = "vc16n%d" % os.getpid()
+    ns = "vc16n%d%s" % (os.getpid(), tag)
     tool = os.path.join(verif.HBIN, "c16")
     setup = [["ip", "netns", "add", ns],
              ["ip", "-n", ns, "link", "add", "v0", "type", "veth", "peer", "name", "v1"],
@@ -155,13 +172,12 @@ def e2e_runs(ctx, idxs):
                 return rows
         time.sleep(0.3)
         for n, i in enumerate(idxs):
-            d_ms, frac = E2E[i % len(E2E)]
-            after_ms = int(d_ms * frac)
-            respf = os.path.join(ctx.work, "resp_%d.jsonl" % n)
+            d_ms, after_ms = ALL_E2E[i % len(ALL_E2E)]
+            respf = os.path.join(ctx.work, "resp%s_%d.jsonl" % (tag, n))
             resp = subprocess.Popen(["ip", "netns", "exec", ns, tool, "-respond", "v1", "-ip", "10.78.0.2", "-after",
                                      "%dms" % after_ms, "-out", respf, "-total", "20s"],
                                     stdout=subprocess.PIPE, stderr=subprocess.STDOUT, text=True, cwd=ctx.work)
-            o = {"kind": "e2e", "class": "e2e", "id": i, "delay_ms": d_ms, "reply_after_ms": after_ms}
+            o = {"kind": "e2e", "class": "e2e", "id": i % len(ALL_E2E), "delay_ms": d_ms, "reply_after_ms": after_ms}
             try:
                 line = resp.stdout.readline()
                 if line.strip() != "ready":
@@ -190,6 +206,52 @@ def e2e_runs(ctx, idxs):
     return rows
 
 
+def e2e_parallel(ctx, idxs):
+    """One namespace per run, all at once (each run is a sleeping process: no load)."""
+    from concurrent.futures import ThreadPoolExecutor
+    if not build_sx(ctx):
+        return []
+    with ThreadPoolExecutor(max_workers=max(1, min(8, len(idxs)))) as ex:
+        futs = [ex.submit(e2e_runs, ctx, [i], "p%d" % n) for n, i in enumerate(idxs)]
+        return [o for f in futs for o in f.result()]
+
+
+LATE_MARGIN_MS = 100    # a reply sent later than D - 100 ms after the last probe (responder stalled) is not judged
+
+
+def reply_missed(o):
+    if o.get("err"):
+        return False
+    if (o["reply_sent_unix_ns"] - o["last_probe_unix_ns"]) > (o["delay_ms"] - LATE_MARGIN_MS) * MS:
+        return False
+    return "10.78.0.2" not in o["stdout"] or o["reply_mac"] not in o["stdout"].lower()
+
+
+def confirm_misses(ctx, rows):
+    """A reply that was not reported is reported as a violation only if the same run, repeated alone four more times,
+    misses it at least once more (a single miss can be scheduling noise on a loaded machine)."""
+    out, confirmed = [], False
+    for o in rows:
+        if not reply_missed(o):
+            out.append(o)
+            continue
+        if confirmed:
+            continue          # one confirmed failing input is enough; do not spend time on the others
+        again = e2e_runs(ctx, [o["id"]] * 4, "c%d" % o["id"])
+        misses = 1 + sum(1 for a in again if reply_missed(a))
+        o["attempts"], o["misses"] = 1 + len([a for a in again if not a.get("err")]), misses
+        if misses >= 2:
+            out.append(o)
+            confirmed = True
+        else:
+            ctx.info.append("e2e --exit-delay %dms, reply after %dms: missed once, reported in %d repeated runs (not a finding)"
+                            % (o["delay_ms"], o["reply_after_ms"], o["attempts"] - 1))
+            o["stdout"] = again[0]["stdout"] if again and not again[0].get("err") else o["stdout"]
+            if not reply_missed(o):
+                out.append(o)
+    return out
+
+
 CMDS = [("arp", ["arp", "-i", "v0", "10.78.0.0/30"]),
         ("icmp", ["icmp", "-i", "v0", "-a", "ARP", "10.78.0.2/32"]),
         ("tcp", ["tcp", "--flags", "syn,ack", "-i", "v0", "-a", "ARP", "-p", "80", "10.78.0.2/32"]),
@@ -207,12 +269,9 @@ def cmd_runs(ctx, idxs, delay_ms=700):
     """Every scan command of the real binary with --exit-delay D in a private netns: the process must live at least D
     (wall time from before it is started to after it has exited: at least exit - done)."""
     rows = []
-    exe = os.path.join(ctx.work, "sx")
-    if not os.path.exists(exe):
-        rc, out = verif.sh(["go", "build", "-o", exe, "."], env=verif.GOENV, cwd=verif.REPO, timeout=900)
-        if rc != 0:
-            ctx.broken.append(("correspondence: the sx binary does not build from the current tree", out[-1500:]))
-            return rows
+    exe = build_sx(ctx)
+    if not exe:
+        return rows
     ns = "vc16m%d" % os.getpid()
     arp = os.path.join(ctx.work, "arp.cache")
     with open(arp, "w") as f:
@@ -260,10 +319,12 @@ def spec_e2e(o):
     if o.get("err"):
         return None
     d = o["delay_ms"] * MS
-    if "10.78.0.2" not in o["stdout"] or o["reply_mac"] not in o["stdout"].lower():
-        return ("sx arp --exit-delay %dms: the reply for 10.78.0.2 sent %d ms after the last probe (inside the exit delay) "
-                "was not reported; output %r" % (o["delay_ms"], (o["reply_sent_unix_ns"] - o["last_probe_unix_ns"]) // MS,
-                                                 o["stdout"][:200]))
+    if reply_missed(o):
+        sent = (o["reply_sent_unix_ns"] - o["last_probe_unix_ns"]) // MS
+        return ("sx arp --exit-delay %dms: the reply for 10.78.0.2 put on the wire %d ms after the last probe, i.e. %d ms "
+                "before the exit delay ran out, was not reported%s; output %r"
+                % (o["delay_ms"], sent, o["delay_ms"] - sent,
+                   " (in %d of %d runs)" % (o["misses"], o["attempts"]) if o.get("attempts") else "", o["stdout"][:200]))
     if o["exit_unix_ns"] - o["last_probe_unix_ns"] < d:
         return ("sx arp --exit-delay %dms exited %d ms after its last probe was on the wire"
                 % (o["delay_ms"], (o["exit_unix_ns"] - o["last_probe_unix_ns"]) // MS))
@@ -304,12 +365,14 @@ def run(ctx):
             report(ctx, o, why, ctx.seed, n)
     erows = []
     if os.path.exists(os.path.join(verif.HBIN, "c16")):
-        erows = e2e_runs(ctx, [ctx.seed % len(E2E)] if quick else list(range(len(E2E))) * 3)
+        late = list(range(len(E2E), len(ALL_E2E)))
+        erows = e2e_parallel(ctx, [ctx.seed % len(E2E)] + late if quick else list(range(len(ALL_E2E))) + late * 2)
+        erows = confirm_misses(ctx, erows)
         for o in erows:
             if o.get("err"):
                 ctx.skipped.append("e2e --exit-delay %dms: %s" % (o["delay_ms"], o["err"]))
                 continue
-            ctx.count("e2e:%dms" % o["delay_ms"], ("e2e", o["delay_ms"], o["exit_unix_ns"]), nontrivial=True,
+            ctx.count("e2e:%dms:reply@%dms" % (o["delay_ms"], o["reply_after_ms"]), ("e2e", o["delay_ms"], o["exit_unix_ns"]), nontrivial=True,
                       sample={"cmd": "sx arp -i v0 --exit-delay %dms 10.78.0.0/30" % o["delay_ms"], "probes": o["probes"],
                               "reply_after_last_probe_ms": (o["reply_sent_unix_ns"] - o["last_probe_unix_ns"]) // MS,
                               "exit_after_last_probe_ms": (o["exit_unix_ns"] - o["last_probe_unix_ns"]) // MS,
@@ -349,7 +412,7 @@ def run(ctx):
                 if why and bad < 3:
                     bad += 1
                     report(ctx, o, why, sd, 200)
-            for o in e2e_runs(ctx, range(len(E2E))):
+            for o in confirm_misses(ctx, e2e_parallel(ctx, range(len(ALL_E2E)))):
                 why = spec_e2e(o)
                 if why and bad < 3:
                     bad += 1
@@ -378,9 +441,10 @@ def replay(ctx, path):
         print("replay sx %s: %s" % (CMDS[i["id"]][0], why or (got and got[0].get("err")) or "property holds on this run"))
         return 1 if why else 0
     if i.get("kind") == "e2e":
-        got = e2e_runs(ctx, [i["id"]])
+        got = confirm_misses(ctx, e2e_runs(ctx, [i["id"]]))
         why = spec_e2e(got[0]) if got else None
-        print("replay e2e %d: %s" % (i["id"], why or (got and got[0].get("err")) or "property holds on this run"))
+        print("replay e2e %d (--exit-delay %dms, reply after %dms): %s" % (
+            i["id"], ALL_E2E[i["id"]][0], ALL_E2E[i["id"]][1], why or (got and got[0].get("err")) or "property holds on this run"))
         return 1 if why else 0
     ok, out = ctx.harness_run("c16", ["-out", "one.jsonl", "-seed", i["seed"], "-n", i["n"], "-one", i["id"]], timeout=300)
     if not ok:
